@@ -112,12 +112,17 @@ def render_epub(doc, *, images=None, opts=None, **kw) -> bytes:
         doc["_rem"] = opts["inline_removed"]
     if opts.get("selfclose_empty_cells"):
         doc["_selfclose"] = True
+    # chapter file names: plain, or words that merely contain "nav" / "toc" (protocol, canaveral, octocat): they are ordinary spine documents
+    stems = ["protocol", "canaveral", "octocat", "navy-report", "autocracy"] if opts.get("chapter_names") == "odd" else None
     for i, u in enumerate(doc["units"]):
-        chapters.append((f"text/ch{i + 1}.xhtml", html_of_blocks(u["blocks"], doc, xhtml=True, title=u.get("name") or f"Chapter {i + 1}")))
+        href = f"text/{stems[i % len(stems)]}{i + 1}.xhtml" if stems else f"text/ch{i + 1}.xhtml"
+        chapters.append((href, html_of_blocks(u["blocks"], doc, xhtml=True, title=u.get("name") or f"Chapter {i + 1}")))
     p = doc.get("props") or {}
     n = len(chapters)
     manifest_order = list(reversed(range(n))) if opts.get("manifest_reversed") else None
     imgs = [(f"images/image{j + 1}.{im['ext']}", {"png": "image/png", "jpeg": "image/jpeg", "gif": "image/gif", "bmp": "image/bmp"}[im["ext"]], im["data"]) for j, im in enumerate(images or [])]
+    if opts.get("ghost_image") and imgs:
+        imgs = [("images/ghost.png", "image/png", None)] + imgs        # a manifest item whose file is missing must not disturb the numbering 1..n of the others
     return wrappers.epub_bytes(chapters, title=p.get("title") or "VF Book", creator=p.get("author") or "VF Author", props=p, images=imgs, manifest_order=manifest_order)
 
 
@@ -204,7 +209,7 @@ def render_pdf(doc, *, images=None, opts=None, **kw) -> bytes:
                 if opts.get("share_images"):
                     d["share_key"] = f"img{b['id']}"
                 imgs.append(d)
-        pages.append({"lines": lines, "images": imgs})
+        pages.append({"lines": lines, "images": imgs, "no_contents": bool(opts.get("bare_blank_pages"))})
     p = doc.get("props") or {}
     info = {k2: p[k1] for k1, k2 in (("title", "Title"), ("author", "Author"), ("subject", "Subject"), ("keywords", "Keywords")) if p.get(k1) is not None}
     return pdfw.write_pdf(pages, info=info or None, compress=bool(opts.get("compress")))
